@@ -398,7 +398,7 @@ func (s cmap6or10) Lookup(r rune) (GID, bool) {
 	if r < s.firstCode {
 		return 0, false
 	}
-	c := int(r - s.firstCode)
+	c := int(r) - int(s.firstCode) // as int, to avoid overflow (firstCode may be negative)
 	if c >= len(s.entries) {
 		return 0, false
 	}
